@@ -630,7 +630,152 @@ def _inl(rule):
 
 
 INLINED_VIEW = False
-RULES_PLAIN = [rule_threading, rule_compile_receiver, rule_concat, rule_decoders, rule_exception_str, rule_stringify]
+class _FreshS(BaseState):
+    def __init__(self, fresh=frozenset()):
+        self.fresh = fresh
+
+    def key(self):
+        return self.fresh
+
+    def copy(self):
+        n = _FreshS(self.fresh)
+        n.trace = self.trace
+        return n
+
+
+class _FreshDomain(Domain):
+    """Which locals name a sequence this call has built itself (list(x),
+    a display, a comprehension) -- as opposed to the caller's object."""
+
+    def __init__(self, params, watch=None):
+        self.params = set(params)
+        self.stores = []          # (node, name, fresh?)
+        self.watch = watch        # predicate on Call nodes
+        self.calls = []           # (call, first argument is fresh?)
+
+    def raises(self, node, st):
+        from ..flow import ANY
+        return [ANY] if any(isinstance(x, ast.Call)
+                            for x in ast.walk(node)) else []
+
+    @staticmethod
+    def _builds(v):
+        return isinstance(v, (ast.List, ast.ListComp)) or (
+            isinstance(v, ast.Call) and isinstance(v.func, ast.Name) and
+            v.func.id in ('list', 'sorted')) or (
+            isinstance(v, ast.BinOp) and isinstance(v.op, ast.Add))
+
+    def effects(self, stmt, st):
+        for x in ast.walk(stmt):
+            if self.watch is not None and isinstance(x, ast.Call) and \
+                    x.args and self.watch(x):
+                a = x.args[0]
+                self.calls.append((x, self._builds(a) or (
+                    isinstance(a, ast.Name) and a.id in st.fresh)))
+            if isinstance(x, ast.Subscript) and isinstance(
+                    x.ctx, (ast.Store, ast.Del)) and isinstance(
+                    x.value, ast.Name):
+                self.stores.append((x, x.value.id,
+                                    x.value.id in st.fresh))
+            if isinstance(x, ast.Call) and isinstance(
+                    x.func, ast.Attribute) and isinstance(
+                    x.func.value, ast.Name) and x.func.attr in (
+                        'append', 'extend', 'insert', 'pop', 'remove',
+                        'sort', 'reverse', 'clear'):
+                self.stores.append((x, x.func.value.id,
+                                    x.func.value.id in st.fresh))
+        if isinstance(stmt, ast.Assign) and len(stmt.targets) == 1 and \
+                isinstance(stmt.targets[0], ast.Name):
+            name = stmt.targets[0].id
+            st = st.copy()
+            if self._builds(stmt.value):
+                st.fresh = st.fresh | {name}
+            elif isinstance(stmt.value, ast.Name) and \
+                    stmt.value.id in st.fresh:
+                st.fresh = st.fresh | {name}
+            else:
+                st.fresh = st.fresh - {name}
+        return st
+
+
+def rule_join_copy(model):
+    r = RuleResult('C19.R7', 'the decoding fallback of join_unicode works '
+                   'on its own copy of the pieces: it never assigns into '
+                   'the sequence it was given (callers pass lists, tuples '
+                   'and generators; a tuple cannot be assigned to and a '
+                   'caller\'s list must not change)')
+    fi = model.func('_DocumentTemplate', 'join_unicode')
+    dom = _FreshDomain(fi.params())
+    Interp(dom).run(fi.node, _FreshS())
+    seen = set()
+    inplace = []
+    for node, name, fresh in dom.stores:
+        if (id(node), fresh) in seen:
+            continue
+        seen.add((id(node), fresh))
+        r.instance(fi.where, node, 'own copy' if fresh
+                   else 'THE CALLER\'S SEQUENCE')
+        if not fresh and name in dom.params:
+            inplace.append((node, name))
+    # the fallback writes into what it was given: then every caller must
+    # hand in a list it has just built
+    if inplace:
+        node, name = inplace[0]
+        bad = []
+        for g in model.all_funcs():
+            if not any(isinstance(c, ast.Call) and fi.where in
+                       model.callee_names(c, g)
+                       for c in own_nodes(g.node)):
+                continue
+            d2 = _FreshDomain(g.params(), watch=lambda c, g=g: fi.where in
+                              model.callee_names(c, g))
+            Interp(d2, 200000).run(g.node, _FreshS())
+            verdict = {}
+            for c, ok in d2.calls:
+                verdict[id(c)] = (c, verdict.get(id(c), (c, True))[1]
+                                  and ok)
+            for c, ok in verdict.values():
+                r.instance(g.where, c, 'passes a list of its own' if ok
+                           else 'PASSES ANOTHER KIND OF SEQUENCE')
+                if not ok:
+                    bad.append((g, c))
+        for g, c in bad:
+            r.finding(g.where, c, f'join_unicode assigns into the sequence '
+                      f'it is given (`{name}[i] = ...`), and this caller '
+                      'hands in something that is not a list of its own (a '
+                      'tuple raises TypeError instead of being decoded '
+                      'with the template encoding)', node=c, ctx=g)
+    r.require_floor(1)
+    return r
+
+
+def rule_block_encoding(model):
+    r = RuleResult('C19.R6', 'compiled blocks carry the encoding of the '
+                   'template they were compiled for (block tags get '
+                   'encoding=self.encoding at compile time): blocks taken '
+                   'from a store shared between templates are looked up by '
+                   'a key that includes the encoding')
+    from .c01 import compiled_block_origins
+    os_ = compiled_block_origins(model)
+    for fi, n, kind, cont, kd in os_:
+        r.instance(fi.where, n, 'compiled here' if kind == 'parse' else
+                   f'shared store {cont} keyed by {sorted(kd)}')
+        if kind == 'shared' and 'self.encoding' not in kd:
+            r.finding(fi.where, n, f'compiled blocks are taken from the '
+                      f'shared store `{cont}` by a key that ignores the '
+                      'encoding: a template with the same source and '
+                      'another encoding reuses block tags bound to the '
+                      'first template\'s encoding (bytes in dtml-in / with '
+                      '/ let / try bodies are decoded with the wrong '
+                      'codec)', node=n, ctx=fi)
+    if not os_:
+        raise AnalysisError('C19.R6: cook() not understood')
+    r.floor = 1
+    return r
+
+
+RULES_PLAIN = [rule_threading, rule_compile_receiver, rule_concat, rule_decoders, rule_exception_str, rule_stringify,
+               rule_block_encoding, rule_join_copy]
 RULES = [_inl(r_) for r_ in RULES_PLAIN] if INLINED_VIEW else RULES_PLAIN
 EXPLANATION = (
     'Call-site query: every call whose resolved callee has an `encoding` '
